@@ -134,6 +134,20 @@ static bool edn_value_equal_internal(const edn_value_t* a, const edn_value_t* b,
         case EDN_TYPE_RATIO:
             return a->as.ratio.numerator == b->as.ratio.numerator &&
                    a->as.ratio.denominator == b->as.ratio.denominator;
+
+        case EDN_TYPE_BIGRATIO:
+            /* Big ratios keep the literal's digit strings: equal when sign and digits agree */
+            if (a->as.bigratio.numer_negative != b->as.bigratio.numer_negative) {
+                return false;
+            }
+            if (a->as.bigratio.numer_length != b->as.bigratio.numer_length ||
+                a->as.bigratio.denom_length != b->as.bigratio.denom_length) {
+                return false;
+            }
+            return memcmp(a->as.bigratio.numerator, b->as.bigratio.numerator,
+                          a->as.bigratio.numer_length) == 0 &&
+                   memcmp(a->as.bigratio.denominator, b->as.bigratio.denominator,
+                          a->as.bigratio.denom_length) == 0;
 #endif
 
         case EDN_TYPE_CHARACTER:
